@@ -74,6 +74,11 @@ class WrapSys:
         self.ref_step = answered(jax.jit(env.step), "step")
         self.ref_reset = answered(jax.jit(env.reset), "reset")
         self.W = AutoResetWrapper(env, next_obs_in_extras=flag)
+        # the same environment object behind a wrapper with the other option, and the usual
+        # `@partial(jit, static_argnums=0) def step(env, state, action)` idiom: jit keys its cache on the static argument, so the
+        # two wrappers must not be confused with one another (STATIC segments ask the other wrapper first)
+        self.W_other = AutoResetWrapper(env, next_obs_in_extras=not flag)
+        self.static_step = jax.jit(lambda e, s, a: e.step(s, a), static_argnums=0)
         self.VW = VmapWrapper(env)
         self.VAR = VmapAutoResetWrapper(env, next_obs_in_extras=flag)
         self.VWAR = VmapWrapper(self.W)
@@ -335,11 +340,15 @@ class WrapRun:
                 if d:
                     self.fail("autoreset_vs_reference", "lookahead_lane_differs_from_step", f"client {i} candidate {j} (action {a}): {d}")
             return
-        if kind in ("JIT", "EAGER"):
+        if kind in ("JIT", "EAGER", "STATIC"):
             acts = seg[1]
             n_last = 0
+            if kind == "STATIC":
+                self.guarded("jit(step, static_argnums=0)(other wrapper, ...)", ws.static_step, ws.W_other, self.cur[0], ws.act(acts[0]))
             for i in range(B):
                 fn = ws.jit("w_step", ws.W.step) if kind == "JIT" else ws.W.step
+                if kind == "STATIC":
+                    fn = lambda s_, a_: ws.static_step(ws.W, s_, a_)  # noqa: E731
                 s, ts = self.guarded("AutoResetWrapper.step (" + kind + ")", fn, self.cur[i], ws.act(acts[i]))
                 before = len(self.reset_keys[i])
                 self.compare(i, kind, s, ts, self.ref[i], acts[i])
@@ -531,6 +540,7 @@ def _generate(ws: WrapSys, mode: str, rng: np.random.Generator, B: int, stats: S
     weights /= weights.sum()
     eager_left = 1 if (ws.adapter.name in EAGER_OK and rng.random() < 0.25 and mode == "C13") else 0
     look_left = 1 if (ws.adapter.name in EAGER_OK and rng.random() < 0.3 and mode == "C13") else 0
+    static_left = 2 if (rng.random() < 0.3 and mode == "C13") else 0
 
     def actions_for_all() -> List[Any]:
         pat = rng.random()
@@ -548,6 +558,8 @@ def _generate(ws: WrapSys, mode: str, rng: np.random.Generator, B: int, stats: S
             kind, eager_left = "EAGER", 0
         elif look_left and rng.random() < 0.15:
             kind, look_left = "LOOKAHEAD", 0
+        elif static_left and kind == "JIT" and rng.random() < 0.5:
+            kind, static_left = "STATIC", static_left - 1
         if kind == "LOOKAHEAD":
             i = int(rng.integers(0, B))
             cands = [choose_action(ws, util.to_np(run.cur[i]), run.cur_ts[i], rng, bool(j == 0 and rng.random() < 0.5), stats) for j in range(3)]
@@ -634,7 +646,7 @@ def run_task(prop: Any, task: Dict[str, Any]) -> Dict[str, Any]:
         steps_before = stats.steps
         try:
             if ws.wide:
-                stats.probes["runs_with_int32_actions_for_a_narrower_spec"] = stats.probes.get("runs_with_int32_actions_for_a_narrower_spec", 0) + 1
+                stats.inc(stats.faults, "WIDE_ACTION")  # runs with int32 actions for a narrower integer spec
             ops, run = generate_and_run(ws, mode, mode, rng, B, stats, nseg)
         except Violation as v:
             key = (v.monitor, v.cls)
